@@ -471,10 +471,14 @@ def layouts(draw, wrap=None, decorations=True):
         inserts = [draw(st.integers(1, 5)) if draw(st.integers(0, 9)) < density else 0 for _ in range(n)]
     else:
         inserts = [0]
+    pads = ints(0, 14, 6, 24) if draw(st.integers(0, 3)) else ints(0, 2, 6, 12)
+    if draw(st.integers(0, 9)) == 0:
+        # "any amount of space padding": some header lines longer than the usual I/O buffer sizes (8 KiB)
+        pads[draw(st.integers(0, len(pads) - 1))] = draw(st.sampled_from((8185, 8192, 8200, 9000, 17000)))
     return {
         'wrap': draw(st.booleans()) if wrap is None else bool(wrap),
         'titles': ints(0, 5, 1, 6),
-        'pads': ints(0, 14, 6, 24) if draw(st.integers(0, 3)) else ints(0, 2, 6, 12),
+        'pads': pads,
         'inserts': inserts,
         'ws': ints(0, 9, 1, 5),
         'seps': ints(0, len(SEPS) - 1, 1, 8) if draw(st.integers(0, 2)) else [0],
